@@ -5,6 +5,17 @@ set_option linter.unusedSimpArgs false
 set_option linter.unusedVariables false
 
 namespace HcipyVerif.FourierSwitch
+
+/-! ## proof-level invariants (`Prop` forms; the executed check is `keyedB` in the model, bridged by `keyedB_iff`) -/
+namespace Spec
+/-- specification form of the executed check `keyedB`: matrices recorded at `q` are the matrices for `q` -/
+def Keyed {X M B R : Type} (K : MftKern X M B R) (c : MftCache M B) : Prop :=
+  ∀ q m, c.mats = some (q, m) → m = K.mats q
+
+/-- invariant of the NFT cache: a cached matrix is the matrix of its direction -/
+def NftKeyed {X A R : Type} (K : NftKern X A R) (c : NftCache A) : Prop :=
+  ∀ d a, c.get d = some a → a = K.matrix d
+end Spec
 open Spec
 
 /-! ## selection -/
